@@ -119,7 +119,23 @@ ImpMsg4 ==
   /\ stI' = "DELETED" /\ phase' = 9
   /\ UNCHANGED <<vI, vR, stR, installed>>
 
-Next == Msg1 \/ Msg2 \/ Msg3 \/ Msg4 \/ Msg4Fail \/ ImpMsg2 \/ ImpMsg4
+\* Impersonation of the initiator: the attacker starts the exchange ITSELF towards the responder (own nonce, KE value, SPI), owns the keys, and then claims the
+\* initiator's identity with a made-up AUTH payload - or skips IKE_AUTH altogether and sends another protected exchange (CREATE_CHILD_SA, INFORMATIONAL)
+\* as its second message.  The responder must not establish and must not install anything.
+ImpIMenu == ForgeMenu \cup {"ccsa-instead", "info-instead"}
+ImpIMsg1 ==
+  /\ phase = 1
+  /\ vR' = [f \in Fields |-> IF f \in ReqFields THEN Evil(f) ELSE IF f \in ResFields THEN Honest(f) ELSE <<"unknown", f>>]
+  /\ stR' = "INIT_RES_SENT" /\ phase' = 7
+  /\ last' = [a |-> "ImpIMsg1"]
+  /\ UNCHANGED <<vI, stI, installed>>
+ImpIMsg3 ==
+  /\ phase = 7
+  /\ \E f \in ImpIMenu : last' = [a |-> "ImpIMsg3", forge |-> f]
+  /\ stR' = "DELETED" /\ phase' = 9
+  /\ UNCHANGED <<vI, vR, stI, installed>>
+
+Next == Msg1 \/ Msg2 \/ Msg3 \/ Msg4 \/ Msg4Fail \/ ImpMsg2 \/ ImpMsg4 \/ ImpIMsg1 \/ ImpIMsg3
 Spec == Init /\ [][Next]_vars
 
 \* ---------------------------------------------------------------------------------------------- properties
